@@ -32,7 +32,7 @@ CHECKS = {
     "C03": dict(
         engine="E1+E3",
         category="exploration",
-        text="C03a quiescence check after every Ring::poll in generated single-thread histories (counting wakers, replaced wakers, over-subscribed 1..4-entry queues): no operation is ready-but-unwoken, operations waiting for queue space are woken once slots are free. Liveness is decided in this safety form only. C03b (2 of 5 cases): submitter threads and the Ring thread interleaved by a baton scheduler at a10's lock/atomic points and every simulated system call; afterwards an executor that re-polls only woken operations must finish everything, first without any completion (queue-space wake-ups), then with completions. Schedules are per-point choice tapes or (half of the cases) PCT priority schedules with up to 3 change points, i.e. long uninterrupted runs with few preemptions; the kernel completes requests between Ring::poll calls or inside the io_uring_enter that consumed them.",
+        text="C03a quiescence check after every Ring::poll in generated single-thread histories (counting wakers, replaced wakers, over-subscribed 1..4-entry queues): no operation is ready-but-unwoken, operations waiting for queue space are woken once slots are free. Liveness is decided in this safety form only. C03b (2 of 5 cases): submitter threads and the Ring thread interleaved by a baton scheduler at a10's lock/atomic points and every simulated system call; afterwards an executor that re-polls only woken operations must finish everything, first without any completion (queue-space wake-ups), then with completions. Schedules are per-point choice tapes or (half of the cases) PCT priority schedules with up to 3 change points, i.e. long uninterrupted runs with few preemptions; the kernel completes requests between Ring::poll calls or inside the io_uring_enter that consumed them. Replaced wakers alternate between a sibling of the old waker (same data pointer, other vtable, own counter) and a new one.",
         design_ref="5/C03",
         technique="model-based property testing with counting wakers (quiescence invariant after each Ring::poll) + schedule-controlled concurrency testing (generated schedules under a baton scheduler, executor-progress oracle)",
     ),
@@ -56,7 +56,7 @@ CHECKS.update({
     "C06": dict(
         engine="E1+E2+E3",
         category="exploration",
-        text="Generated histories with drops at every life-cycle point x scripted cancel-race outcomes x full/non-full queue: SQEs published by each drop are diffed against the model (exactly one ASYNC_CANCEL for that user_data iff running and room), the operation-state block and resources must be live until / dead after the Ring::poll that consumes the final CQE, never freed twice, nothing live at the end. One case in five is a multi-completion case (drops after some multishot results, between the two completions of a zero-copy send, after the Ring): reclamation exactly once after the final completion, not the first; the owned ReceiveSignals iterator (one operation state reset and reused per item, dropped or taken apart with into_inner at any point). One case in eleven is a composite operation of the C10 driver (state reset and reused from step to step) under a leak / double-free audit. One case in five: C06b, drops racing the completion handler on another thread under the baton scheduler.",
+        text="Generated histories with drops at every life-cycle point x scripted cancel-race outcomes x full/non-full queue: SQEs published by each drop are diffed against the model (exactly one ASYNC_CANCEL for that user_data iff running and room), the operation-state block and resources must be live until / dead after the Ring::poll that consumes the final CQE, never freed twice, nothing live at the end. One case in five is a multi-completion case (drops after some multishot results, between the two completions of a zero-copy send, after the Ring): reclamation exactly once after the final completion, not the first; the owned ReceiveSignals iterator (one operation state reset and reused per item, dropped or taken apart with into_inner at any point). One case in eleven is a composite operation of the C10 driver (state reset and reused from step to step) under a leak / double-free audit. One case in five: C06b, drops racing the completion handler on another thread under the baton scheduler. One history in three ends abruptly: the Ring is dropped with unsubmitted entries and just-dropped futures, without settling polls, and nothing allocated during the history may survive.",
         design_ref="5/C06",
         technique="model-based property testing; cancel-SQE diff oracle + allocation-lifetime oracle from a tracking allocator",
     ),
@@ -92,7 +92,7 @@ CHECKS.update({
     "C10": dict(
         engine="E1 + composite driver",
         category="exploration",
-        text="Generated buffer shapes (1..8 buffers of every carrier type, empties anywhere, LimitedBuf; pool ReadBufs fresh or partly filled for read_n/recv_n; one case in eight with buffers over reserved, never touched address space with lengths up to 2^32-1, destinations beyond, totals up to 32 GiB, judged by an (address, length) span oracle), targets, offsets, flag subsets, zero-copy, extract, and a generated sequence of short transfer sizes per request; the simulated kernel's accepted/delivered byte stream is the oracle for all-or-error, offsets/flags/opcode of every continuation, WriteZero/UnexpectedEof conditions and buffer identity.",
+        text="Generated buffer shapes (1..8 buffers of every carrier type, empties anywhere, LimitedBuf; pool ReadBufs fresh or partly filled for read_n/recv_n; one case in eight with buffers over reserved, never touched address space with lengths up to 2^32-1, destinations beyond, totals up to 32 GiB, judged by an (address, length) span oracle), targets, offsets, flag subsets, zero-copy, extract, and a generated sequence of short transfer sizes per request; the simulated kernel's accepted/delivered byte stream is the oracle for all-or-error, offsets/flags/opcode of every continuation, WriteZero/UnexpectedEof conditions and buffer identity. The script of a request may also be a kernel error (ten errnos; zero-copy with or without notification) or an interruption (-EINTR/-ECANCELED): the composite must fail with exactly that error and submit nothing more; an interrupted request must be re-issued bit for bit.",
         design_ref="5/C10",
         technique="property-based testing with a scripted short-transfer kernel and a byte-stream oracle",
     ),
@@ -142,7 +142,7 @@ CHECKS.update({
     "C12": dict(
         engine="E1+E2+E3",
         category="exploration",
-        text="Generated histories (one in seven with a completion queue of 1..4 entries and 3..14 running operations, so that the cancellations of the Ring's drop overflow it; one in five on a direct descriptor) ending in a generated permutation of dropping {Ring, queue handles, AsyncFd, every future (unpolled/blocked/queued/running/abandoned/finished), ReadBufPool, ReadBufs}, some drops on a helper thread, then wake(): no panic, ring mappings unmapped exactly once with the right length, ring descriptor closed once and last, Ring drop submits/cancels/reclaims, pool memory never freed while registered, no descriptor, registration, heap block or waker clone left behind. Rings include single_issuer+defer_task_run ones (simulator K13: task-work completions visible only in enter(GETEVENTS)) and requests completing inline during the Ring's drop flush.",
+        text="Generated histories (one in seven with a completion queue of 1..4 entries and 3..14 running operations, so that the cancellations of the Ring's drop overflow it; one in five on a direct descriptor) ending in a generated permutation of dropping {Ring, queue handles, AsyncFd, every future (unpolled/blocked/queued/running/abandoned/finished), ReadBufPool, ReadBufs}, some drops on a helper thread, then wake(): no panic, ring mappings unmapped exactly once with the right length, ring descriptor closed once and last, Ring drop submits/cancels/reclaims, pool memory never freed while registered, no descriptor, registration, heap block or waker clone left behind. Rings include single_issuer+defer_task_run ones (simulator K13: task-work completions visible only in enter(GETEVENTS)) and requests completing inline during the Ring's drop flush. One case in eight is a multi-completion case (multishot accept / poll / signal iterator, zero-copy sends) with the Ring dropped inside the history, futures polled and dropped afterwards: abandoned operations' state and buffers live until, and freed exactly once after, the consumption of their last completion; nothing the kernel holds is freed.",
         design_ref="5/C12",
         technique="model-based property testing with generated teardown permutations; mmap/close ledger (libc interposition) and allocation-tracker oracles",
     ),
@@ -152,7 +152,7 @@ CHECKS.update({
     "C17": dict(
         engine="E1+E2 + inotify driver",
         category="exploration",
-        text="A real Watcher (real inotify descriptor and watches) whose READs are answered by the simulated kernel with generated record batches (names 0..255 bytes, kernel and extra padding, all mask bits, unknown wds, one directory optionally renamed and watched again (one descriptor, two paths) or removed, created and watched again (one path, two descriptors), IGNORED/OVERFLOW records, every batching that keeps records whole, empty reads, errors, canaries behind the data) plus a retention plan for yielded events; the yielded sequence must equal the model and every retained event must stay unchanged inside its live allocation.",
+        text="A real Watcher (real inotify descriptor and watches) whose READs are answered by the simulated kernel with generated record batches (names 0..255 bytes, kernel and extra padding, all mask bits, unknown wds, one directory optionally renamed and watched again (one descriptor, two paths) or removed, created and watched again (one path, two descriptors), IGNORED/OVERFLOW records, every batching that keeps records whole, empty reads, errors, canaries behind the data) plus a retention plan for yielded events; the yielded sequence must equal the model and every retained event must stay unchanged inside its live allocation. Optionally a further directory or file is watched through the Events iterator itself after k yields; a hook point at the head of a10's decoding loop bounds the rounds of one poll_next call (a call that stops advancing is a violation, not a hang).",
         design_ref="5/C17",
         technique="property-based testing of a stream decoder against a record model, with allocation-liveness checks on retained references",
     ),
@@ -162,7 +162,7 @@ CHECKS.update({
     "C11": dict(
         engine="E1+E4 baton scheduler",
         category="exploration",
-        text="Generated programs (poller: Ring::poll(Some(0)) x0..2 then Ring::poll(None); 1..3 waker threads calling wake() once or twice; default, kernel-thread and single-issuer rings; optionally a full submission queue) executed under a baton scheduler with scheduling points at a10's lock/try_lock, kernel-shared loads, tail/head stores and the polling-state swap/fetch_or, following generated choice tapes; oracle over the total order: a wake() that started after the previous poll returned must make the blocking poll return (stuck state = poller parked in enter with no runnable thread); wake() after the Ring is dropped is harmless.",
+        text="Generated programs (poller: Ring::poll(Some(0)) x0..2 then Ring::poll(None); 1..3 waker threads calling wake() once or twice; default, kernel-thread and single-issuer rings; optionally a full submission queue) executed under a baton scheduler with scheduling points at a10's lock/try_lock, kernel-shared loads, tail/head stores and the polling-state swap/fetch_or, following generated choice tapes; oracle over the total order: a wake() that started after the previous poll returned must make the blocking poll return (stuck state = poller parked in enter with no runnable thread); wake() after the Ring is dropped is harmless. Waker threads optionally queue 1..2 operations of their own right before wake(), so that the wake message is not at the head of the queue.",
         design_ref="5/C11",
         technique="schedule-exploring property-based testing (generated interleavings under a baton scheduler) with a lost-wake-up oracle",
         note="Trusted: simulated kernel (MSG_RING delivery, SQPOLL idle/wake-up protocol), scheduler hook placement; sequential consistency only; bounded liveness (no runnable thread) rather than eventual progress under all fair schedules.",
